@@ -26,7 +26,9 @@ import (
 type c16OrdSpec struct {
 	ID    string
 	Store sys.StoreSpec
-	Ops   []string // "deliver x" | "delete first" | "purge x"
+	Init  []string // performed before the exploration starts
+	Ops   []string // "deliver x" | "deliverbig x" (600-byte body) | "delete first" | "purge x"
+	Ops2  []string // a second client running at the same time (optional)
 	Bound [2]int
 }
 
@@ -36,6 +38,12 @@ func c16OrdSpecs() []c16OrdSpec {
 		{ID: "O2-file-deliver-delete-deliver", Store: sys.StoreSpec{Backend: "file"}, Ops: []string{"deliver x", "delete first", "deliver x"}, Bound: [2]int{2, 3}},
 		{ID: "O3-mem-cap1-deliver-deliver", Store: sys.StoreSpec{Backend: "mem", Cap: 1}, Ops: []string{"deliver x", "deliver x"}, Bound: [2]int{2, 3}},
 		{ID: "O4-file-deliver-deliver-purge", Store: sys.StoreSpec{Backend: "file"}, Ops: []string{"deliver x", "deliver x", "purge x"}, Bound: [2]int{2, 3}},
+		// two clients: an explicit delete of the oldest message races with a delivery that makes
+		// the size limit evict that same message - one 'deleted' event, whoever wins
+		{ID: "O5-mem-maxkb-delete-vs-size-eviction", Store: sys.StoreSpec{Backend: "mem", MaxKB: 1}, Init: []string{"deliverbig x"},
+			Ops: []string{"delete first"}, Ops2: []string{"deliverbig y"}, Bound: [2]int{2, 3}},
+		{ID: "O6-mem-maxkb-purge-vs-size-eviction", Store: sys.StoreSpec{Backend: "mem", MaxKB: 1}, Init: []string{"deliverbig x"},
+			Ops: []string{"purge x"}, Ops2: []string{"deliverbig y"}, Bound: [2]int{2, 3}},
 	}
 }
 
@@ -57,7 +65,7 @@ func c16OrdScenario(c *fw.Ctx, sp c16OrdSpec) schedScenario {
 				handler := func(kind string) func(event.MessageMetadata) {
 					return func(m event.MessageMetadata) {
 						mu.Lock()
-						inv := &c16Inv{kind: kind, id: m.ID, enter: vsched.StepNo(), exit: -1, seq: len(invs)}
+						inv := &c16Inv{kind: kind, id: m.Mailbox + "/" + m.ID, enter: vsched.StepNo(), exit: -1, seq: len(invs)}
 						invs = append(invs, inv)
 						mu.Unlock()
 						vsched.Point("listener body (" + kind + ")")
@@ -69,42 +77,58 @@ func c16OrdScenario(c *fw.Ctx, sp c16OrdSpec) schedScenario {
 				// one extension with two handlers, registered through the public API
 				s.Ext.Events.AfterMessageStored.AddListener("verif-ext", handler("stored"))
 				s.Ext.Events.AfterMessageDeleted.AddListener("verif-ext", handler("deleted"))
-				client := func() {
-					st := s.StoreH.Store
-					for _, op := range sp.Ops {
-						f := strings.Fields(op)
-						switch f[0] {
-						case "deliver":
-							from, _ := s.Policy.ParseOrigin("s@o.test")
-							rc, _ := s.Policy.NewRecipient(f[1] + "@x.test")
-							before, _ := st.GetMessages(f[1])
-							_ = s.Mgr.Deliver(from, []*policy.Recipient{rc}, "Received: from c ([pipe]) by verif.test\r\n", []byte("Subject: o\r\n\r\nbody\r\n"))
-							after, _ := st.GetMessages(f[1])
-							known := map[string]bool{}
-							for _, m := range before {
-								known[m.ID()] = true
-							}
-							for _, m := range after {
-								if !known[m.ID()] {
-									mu.Lock()
-									delivered = append(delivered, m.ID())
-									mu.Unlock()
+				client := func(ops []string) func() {
+					return func() {
+						st := s.StoreH.Store
+						for _, op := range ops {
+							f := strings.Fields(op)
+							switch f[0] {
+							case "deliver", "deliverbig":
+								body := "Subject: o\r\n\r\nbody\r\n"
+								if f[0] == "deliverbig" {
+									body = "Subject: o\r\n\r\n" + sizedBody(600)
 								}
+								from, _ := s.Policy.ParseOrigin("s@o.test")
+								rc, _ := s.Policy.NewRecipient(f[1] + "@x.test")
+								before, _ := st.GetMessages(f[1])
+								_ = s.Mgr.Deliver(from, []*policy.Recipient{rc}, "Received: from c ([pipe]) by verif.test\r\n", []byte(body))
+								after, _ := st.GetMessages(f[1])
+								known := map[string]bool{}
+								for _, m := range before {
+									known[m.ID()] = true
+								}
+								for _, m := range after {
+									if !known[m.ID()] {
+										mu.Lock()
+										delivered = append(delivered, f[1]+"/"+m.ID())
+										mu.Unlock()
+									}
+								}
+							case "delete":
+								mu.Lock()
+								id := ""
+								if len(delivered) > 0 {
+									id = delivered[0]
+								}
+								mu.Unlock()
+								if i := strings.IndexByte(id, '/'); i >= 0 {
+									_ = st.RemoveMessage(id[:i], id[i+1:])
+								}
+							case "purge":
+								_ = st.PurgeMessages(f[1])
 							}
-						case "delete":
-							mu.Lock()
-							id := ""
-							if len(delivered) > 0 {
-								id = delivered[0]
-							}
-							mu.Unlock()
-							_ = st.RemoveMessage("x", id)
-						case "purge":
-							_ = st.PurgeMessages(f[1])
 						}
 					}
 				}
-				return nil, []vsched.Thread{{Name: "client", F: client}}, func() { s.Close() }
+				var init func()
+				if len(sp.Init) > 0 {
+					init = client(sp.Init)
+				}
+				ths := []vsched.Thread{{Name: "client", F: client(sp.Ops)}}
+				if len(sp.Ops2) > 0 {
+					ths = append(ths, vsched.Thread{Name: "client2", F: client(sp.Ops2)})
+				}
+				return init, ths, func() { s.Close() }
 			})
 		})
 		if leaked != "" && (e == nil || (len(e.Panics) == 0 && !e.Deadlock)) {
@@ -135,6 +159,15 @@ func c16OrdScenario(c *fw.Ctx, sp c16OrdSpec) schedScenario {
 					return res
 				}
 			}
+		}
+		// (1b) one event of each kind per message at most
+		seenEv := map[string]bool{}
+		for _, in := range invs {
+			if seenEv[in.kind+in.id] {
+				res.Probs = append(res.Probs, [2]string{in.kind + "-duplicate", fmt.Sprintf("the extension was told twice that message #%d (%s) was %s: %s", ord[in.id], in.id, in.kind, res.Outcome)})
+				return res
+			}
+			seenEv[in.kind+in.id] = true
 		}
 		// (2) causal order
 		pos := map[string]int{}
